@@ -215,10 +215,126 @@ def _ints(a):
     return [int(x) + 1 for x in a]
 
 
+# ------------------------------------------------------------------ the route from a list of Miller planes (GMF) and a crystal
+GMF_GROUPS = [(1, ""), (2, ""), (3, "b"), (6, "b"), (10, "b"), (16, ""), (25, ""), (47, ""), (75, ""), (81, ""), (89, ""), (123, ""),
+              (195, ""), (200, ""), (207, ""), (221, "")]
+
+
+def _rot_of(code):
+    r = code % 19683
+    rot, sh = [], 6561
+    for _ in range(9):
+        rot.append((r // sh) % 3 - 1)
+        sh //= 3
+    return [rot[0:3], rot[3:6], rot[6:9]]
+
+
+def gmf_expand(records, rots):
+    """Mirror of Wulff!ExpandPlanes (used only to propose inputs whose expansion stays in the exact domain)."""
+    best = {}
+    for h, k, l, p in records:
+        for R in rots:
+            v = [R[i][0] * h + R[i][1] * k + R[i][2] * l for i in range(3)]
+            g = math.gcd(math.gcd(abs(v[0]), abs(v[1])), abs(v[2])) or 1
+            d = tuple(x // g for x in v)
+            for dd in (d, tuple(-x for x in d)):
+                best[dd] = min(best.get(dd, 10 ** 9), p)
+    return best
+
+
+def gmf_recipes(rng, count):
+    from harness.c02 import table_rows
+    rows = {(r["number"], r["choice"]): r for r in table_rows()}
+    qs = [q for q in quads() if q[3] <= 7]
+    out = []
+    while len(out) < count:
+        num, ch = rng.choice(GMF_GROUPS)
+        rots = []
+        for c in rows[(num, ch)]["ops"]:
+            R = _rot_of(c)
+            if R not in rots:
+                rots.append(R)
+        dirs = [(1, 0, 0), (0, 1, 0), (0, 0, 1)] + [tuple(q[:3]) for q in rng.sample(qs, rng.randint(0, 3))]
+        records = []
+        for d in dirs:
+            m = rng.choice([1, 1, 2, 3])                     # a plane listed with several terminations
+            for p in sorted([rng.randint(32, 64) for _ in range(m)], reverse=rng.random() < 0.7):
+                s = rng.choice([1, 1, -1])
+                records.append([s * d[0] * 1, s * d[1], s * d[2], p])
+        if rng.random() < 0.5:
+            # the opposite face listed on its own, cheaper or dearer
+            d = rng.choice(dirs)
+            records.insert(rng.randrange(len(records) + 1), [-d[0], -d[1], -d[2], rng.randint(32, 64)])
+        exp = gmf_expand(records, rots)
+        if not all(math.isqrt(sum(x * x for x in d)) ** 2 == sum(x * x for x in d) and math.isqrt(sum(x * x for x in d)) <= MAXW for d in exp):
+            continue
+        if len(exp) > 40:
+            continue
+        out.append({"kind": "gmf", "Q": 32, "facets": [], "scale": pick_scale(rng),
+                    "gmf": {"number": num, "choice": ch, "records": records, "rots": rots}})
+    return out
+
+
 def drive(recipe):
     import warnings
     import numpy as np
     warnings.simplefilter("ignore")      # unbounded inputs (judged OOD by TLC) make trimesh warn about NaN
+    from chmpy.crystal.wulff import WulffConstruction
+    if recipe["kind"] == "gmf":
+        return drive_gmf(recipe)
+    return drive_facets(recipe)
+
+
+def drive_gmf(recipe):
+    """WulffConstruction.from_gmf_and_crystal on a cubic-metric cell of edge 1 (reciprocal lattice = identity: the normal of
+    (hkl) is hkl/|hkl|); the facets the object holds are read back from it, in its own order."""
+    import types
+    import numpy as np
+    from chmpy.crystal import Crystal, UnitCell, SpaceGroup, AsymmetricUnit
+    from chmpy.core.element import Element
+    from chmpy.crystal.wulff import WulffConstruction
+    g = recipe["gmf"]
+    q = recipe["Q"]
+    sn, sd = recipe["scale"]
+    sg = SpaceGroup(g["number"], choice=g["choice"]) if g["choice"] else SpaceGroup(g["number"])
+    cr = Crystal(UnitCell.cubic(1.0), sg, AsymmetricUnit([Element["C"]], np.array([[0.1, 0.2, 0.3]])))
+    hkl = np.array([r[:3] for r in g["records"]], dtype=int)
+
+    def build(factor):
+        gm = types.SimpleNamespace(hkl=hkl.copy(), energies=np.array([r[3] / q * factor for r in g["records"]], dtype=float))
+        return WulffConstruction.from_gmf_and_crystal(gm, cr)
+    try:
+        w = build(1.0)
+        facets = []
+        for nrm, e in zip(np.asarray(w.facet_normals, dtype=float), np.asarray(w.facet_energies, dtype=float)):
+            hit = None
+            for wq in range(1, MAXW + 1):
+                v = nrm * wq
+                if np.all(np.abs(v - np.round(v)) < 1e-9) and math.gcd(math.gcd(abs(int(round(v[0]))), abs(int(round(v[1])))), abs(int(round(v[2])))) == 1:
+                    hit = [int(round(x)) for x in v] + [wq]
+                    break
+            p = e * q
+            if hit is None or abs(p - round(p)) > 1e-9:
+                return dict(_empty_trace(recipe), exc="FacetOffDomain")
+            facets.append(hit + [int(round(p))])
+    except Exception as e:      # an exception of the implementation is an observation
+        return dict(_empty_trace(recipe), exc=type(e).__name__)
+    rec2 = dict(recipe, facets=facets)
+    return drive_facets(rec2, prebuilt=(w, lambda: build(sn / sd)))
+
+
+def _empty_trace(recipe):
+    sn, sd = recipe["scale"]
+    return {"kind": recipe["kind"], "Q": recipe["Q"], "facets": recipe.get("facets", []), "exc": "", "offgrid": False, "resid": 0,
+            "verts": [], "lists": [], "tris": [], "trifacet": [], "gmf": recipe.get("gmf", {"records": [], "rots": []}),
+            "mesh": {"exc": "skipped", "verts": [], "faces": [], "vol6s": big(0)},
+            "scale": {"sn": sn, "sd": sd, "exc": "skipped", "verts": [], "offgrid": False},
+            "meta": {"recipe": recipe, "source": "seeded-" + recipe["kind"], "impl_call": "WulffConstruction.from_gmf_and_crystal",
+                     "nontrivial": True}}
+
+
+def drive_facets(recipe, prebuilt=None):
+    import numpy as np
     from chmpy.crystal.wulff import WulffConstruction
     facets = recipe["facets"]
     q = recipe["Q"]
@@ -227,6 +343,7 @@ def drive(recipe):
     nf = len(facets)
     empty_mesh = {"exc": "skipped", "verts": [], "faces": [], "vol6s": big(0)}
     t = {"kind": recipe["kind"], "Q": q, "facets": facets, "exc": "", "offgrid": False, "resid": 0,
+         "gmf": recipe.get("gmf", {"records": [], "rots": []}),
          "verts": [], "lists": [[] for _ in facets], "tris": [], "trifacet": [],
          "mesh": empty_mesh,
          "scale": {"sn": sn, "sd": sd, "exc": "skipped", "verts": [], "offgrid": False},
@@ -237,9 +354,13 @@ def drive(recipe):
                   "nontrivial": False}}
     normals = np.array([[f[0] / f[3], f[1] / f[3], f[2] / f[3]] for f in facets], dtype=float)
     energies = np.array([f[4] / q for f in facets], dtype=float)
+    if all(f[3] == 1 for f in facets) and recipe.get("int_normals", True):
+        # axis-aligned shapes typed the natural way: tuples of Python ints for the normals, a list of floats for the energies
+        normals = tuple((int(f[0]), int(f[1]), int(f[2])) for f in facets)
+        energies = [float(e) for e in energies]
     proj = Projector(wmax)
     try:
-        w = WulffConstruction(normals, energies)
+        w = prebuilt[0] if prebuilt else WulffConstruction(normals, energies)
         verts = np.asarray(w.wulff_vertices, dtype=float)
         t["verts"] = [proj.point(v * q) for v in verts]
         t["lists"] = [_ints(lst) for lst in w.wulff_facets]
@@ -264,7 +385,7 @@ def drive(recipe):
     # scaling law: the same facets with every energy multiplied by s = sn/sd, positions in units 1/(Q*sd)
     sproj = Projector(wmax)
     try:
-        w2 = WulffConstruction(normals, energies * (sn / sd))
+        w2 = prebuilt[1]() if prebuilt else WulffConstruction(normals, np.asarray(energies, dtype=float) * (sn / sd))
         # projected at the scale of the unscaled shape (relative float noise does not grow with the factor), then
         # multiplied back by sn exactly
         def rescaled(v):
@@ -335,6 +456,7 @@ def run(ctx, explain=False):
     n_small = ctx.pick(240, 3000)
     recipes = from_model + named_recipes(ctx.rng, n_named) + generic_recipes(ctx.rng, n_small, 6, 20)
     recipes += noncentro_recipes(ctx.rng, ctx.pick(24, 400), 8, 24)
+    recipes += gmf_recipes(ctx.rng, ctx.pick(40, 800))
     if not ctx.quick:
         recipes += generic_recipes(ctx.rng, 1200, 22, 40) + generic_recipes(ctx.rng, 800, 42, 60)
     traces = pool_map(drive, recipes)
@@ -358,7 +480,8 @@ def run(ctx, explain=False):
                 "energies p/Q; named/degenerate families (cube, box, rational octahedra, hexagonal/octagonal/"
                 "dodecagonal prisms, truncated cubes, rotated copies, planes touching an edge or a vertex) and "
                 "generic sets of 6..%d facets with energies in [1, 2]; facet sets of 8..24 facets without centrosymmetric "
-                "completion (TLC judges the bounded ones); the (shape, scale) instances of MC_Wulff replayed through "
+                "completion (TLC judges the bounded ones); lists of Miller planes (several terminations per plane, opposite faces listed on their own) "
+                "expanded by the point group of 16 space groups through from_gmf_and_crystal; the (shape, scale) instances of MC_Wulff replayed through "
                 "the real code; non-trivial = at least one facet cut off "
                 "entirely or a vertex emitted more than once (more than three facets meet)"
                 % (MAXW, ctx.pick(20, 60)))
